@@ -14,5 +14,6 @@ void h_hwloc_distances_remove_by_depth(void) { VERIF_GHOSTS(); struct hwloc_topo
 void h_hwloc_distances_add_create(void) { VERIF_GHOSTS(); struct hwloc_topology *t; const char *n; unsigned long k, f; hwloc_distances_add_create(t, n, k, f); VERIF_CANARY(); }
 #endif
 #ifdef GUARD_DIFF
+void h_hwloc_topology_diff_apply__rollback(void) { VERIF_GHOSTS(); struct hwloc_topology *t; hwloc_topology_diff_t d; unsigned long f; hwloc_topology_diff_apply(t, d, f); VERIF_CANARY(); }
 void h_hwloc_topology_diff_apply(void) { VERIF_GHOSTS(); struct hwloc_topology *t; hwloc_topology_diff_t d; unsigned long f; hwloc_topology_diff_apply(t, d, f); VERIF_CANARY(); }
 #endif
